@@ -6,7 +6,7 @@
    full statement fails on the code as it is (known findings). *)
 From Coq Require Import List NArith Bool String.
 From Shovel Require Import Base.Outcome Model.Config Model.Sql Model.Schema Model.ConfigGen
-  Proofs.ConfigP Proofs.SchemaP Proofs.SchemaKeyP Proofs.SchemaDdlP Proofs.C16P.
+  Proofs.ConfigP Proofs.SchemaP Proofs.SchemaKeyP Proofs.SchemaDdlP Proofs.C16P Proofs.SchemaE2EP.
 Import ListNotations.
 Open Scope N_scope.
 
@@ -130,6 +130,71 @@ Theorem shared_table_same_key : forall possible u g1 g2 src1 src2 c1 c2,
 Proof. exact cross_no_conflict. Qed.
 Print Assumptions shared_table_same_key.
 
+(* ---- end to end, on the domain where it is true ---- *)
+(* [plain_domain res possible g]: g passed ValidateColRefs, its names are plain,
+   its key is the generated one, it is in the plain-identity domain and no two
+   of its fields write the same column.  [KeyInv tn u cat0]: in the
+   pre-existing catalog every unique index on g's table has the columns u and
+   the name u_<table> is not taken by anything else (true of a database without
+   indexes on the table, and of one left by an earlier run of the same
+   configuration).  [compat]: every integration of the configuration either
+   uses another table or declares the same key — g does not share its table
+   with an integration of a different key.
+
+   (a) After ANY successful migration (any pre-existing catalog with narrower or
+   other tables, any order) the catalog holds g's table with every written
+   column, a unique index on it with EXACTLY the generated key, and no unique
+   index on it with other columns. *)
+Theorem migrated_catalog_has_key_and_columns : forall res possible cat0 igs cat g,
+  migrate_all res cat0 igs = Some cat -> In g igs -> plain_domain res possible g ->
+  KeyInv (t_name (ig_table g)) (generated_key possible g) cat0 ->
+  Forall (fun g' => compat res (t_name (ig_table g)) (generated_key possible g) (ig_table g')) igs ->
+  (exists t, find_table cat (t_name (ig_table g)) = Some t /\
+             forall x, In x (written_columns g) -> In x (pt_cols t)) /\
+  (exists ix, In ix (cat_indexes cat) /\ ix_unique ix = true /\ ix_table ix = t_name (ig_table g) /\
+              ix_cols ix = generated_key possible g) /\
+  (forall ix, In ix (cat_indexes cat) -> ix_unique ix = true -> ix_table ix = t_name (ig_table g) ->
+              ix_cols ix = generated_key possible g).
+Proof. exact migrated_catalog. Qed.
+Print Assumptions migrated_catalog_has_key_and_columns.
+
+(* (b) own table: for every well-formed block list the COPY of the emitted rows
+   into the (so far empty) table is accepted with all rows, and the COPY of the
+   same blocks again is rejected by the unique index — the database is left
+   as after the first *)
+Theorem insert_twice_own_table : forall res possible cat0 igs cat g src bs cs d,
+  migrate_all res cat0 igs = Some cat -> In g igs -> plain_domain res possible g ->
+  KeyInv (t_name (ig_table g)) (generated_key possible g) cat0 ->
+  Forall (fun g' => compat res (t_name (ig_table g)) (generated_key possible g) (ig_table g')) igs ->
+  wf_blocks g bs = true -> emit g bs = Some cs ->
+  rows_of d (t_name (ig_table g)) = [] ->
+  insert cat d g src bs
+    = (CopyOk (List.length cs), put_rows d (t_name (ig_table g)) (map (row_of g src) cs)) /\
+  (cs <> [] -> insert cat (put_rows d (t_name (ig_table g)) (map (row_of g src) cs)) g src bs
+               = (CopyDup, put_rows d (t_name (ig_table g)) (map (row_of g src) cs))).
+Proof. exact insert_twice_own_lemma. Qed.
+Print Assumptions insert_twice_own_table.
+
+(* the same when the table already holds the rows another integration with the
+   SAME key emitted for well-formed blocks (shared table, same shape) *)
+Theorem insert_twice_shared_same_key : forall res possible cat0 igs cat g src bs cs d g2 src2 bs2 cs2,
+  migrate_all res cat0 igs = Some cat -> In g igs -> plain_domain res possible g ->
+  KeyInv (t_name (ig_table g)) (generated_key possible g) cat0 ->
+  Forall (fun g' => compat res (t_name (ig_table g)) (generated_key possible g) (ig_table g')) igs ->
+  wf_blocks g bs = true -> emit g bs = Some cs ->
+  identity_plain possible (generated_key possible g) g2 = true ->
+  In n_ig_name (generated_key possible g) -> ig_name g <> ig_name g2 ->
+  wf_blocks g2 bs2 = true -> emit g2 bs2 = Some cs2 ->
+  rows_of d (t_name (ig_table g)) = map (row_of g2 src2) cs2 ->
+  insert cat d g src bs
+    = (CopyOk (List.length cs),
+       put_rows d (t_name (ig_table g)) (map (row_of g2 src2) cs2 ++ map (row_of g src) cs)) /\
+  (cs <> [] ->
+   insert cat (put_rows d (t_name (ig_table g)) (map (row_of g2 src2) cs2 ++ map (row_of g src) cs)) g src bs
+     = (CopyDup, put_rows d (t_name (ig_table g)) (map (row_of g2 src2) cs2 ++ map (row_of g src) cs))).
+Proof. exact insert_twice_shared_lemma. Qed.
+Print Assumptions insert_twice_shared_same_key.
+
 (* ---- where the full statement fails (replayed on the implementation by the driver) ---- *)
 Definition U16 : uni :=
   {| is_letter := fun c => ((65 <=? c) && (c <=? 90)) || ((97 <=? c) && (c <=? 122));
@@ -237,3 +302,19 @@ Example plain_standard :
   | None => False
   end.
 Proof. vm_compute. repeat split; reflexivity. Qed.
+
+(* the premises of the end-to-end theorems are satisfiable: the standard
+   integration on an empty database *)
+Example plain_domain_standard :
+  match validate_fix U16 G std_cfg with
+  | Some c' =>
+      let g := nth 0 (integs c') dummy_ig in
+      plain_domain reserved (g_possible G) g /\
+      KeyInv (t_name (ig_table g)) (generated_key (g_possible G) g) empty_cat /\
+      Forall (fun g' => compat reserved (t_name (ig_table g)) (generated_key (g_possible G) g) (ig_table g')) (integs c')
+  | None => False
+  end.
+Proof.
+  vm_compute. split; [repeat split|]. split; [intros ix []|].
+  constructor; [|constructor]. right. constructor; [reflexivity|constructor].
+Qed.
